@@ -16,9 +16,11 @@ from stepup.core.enums import StepState
 PID = "C12"
 LEVEL = "proof"
 ASSUMPTIONS = [
-    "the job limit (number of commands in flight <= --jobs), the overlap of executions in time and the hold blocks "
-    "of whole builds are decided by the oracle on simulated builds (real director code, logical clock of the "
-    "simulated event loop), not in the kernel model",
+    "the job limit is a theorem about the model of Builder.job_loop + HashQueue (B/JobLoop.lean: every sequence of "
+    "scheduler answers, hash submissions/promotions and task endings), tied to builder.py/hash_queue.py by running the "
+    "real classes with a stub scheduler/executor on the same event scripts; asyncio itself (task scheduling, "
+    "Event, Queue) is trusted; the overlap of executions in time and the hold blocks of whole builds are in addition "
+    "observed on simulated builds (real director code, logical clock of the simulated event loop)",
     "findings F7/F9 (a detached step that is still RUNNING is recycled) are in scope of the kernel oracle",
 ]
 SCOPES = {"scheduler", "completion", "declarations"}
@@ -82,6 +84,9 @@ class Observer:
 
 async def correspond(ctx):
     await kcorr.run(ctx, SCOPES, observers=[Observer], salt="c12")
+    import jobloopcorr
+
+    await jobloopcorr.correspond(ctx)
 
 
 def _peak(windows):
@@ -244,7 +249,9 @@ def build_case(ctx, index, *, salt="build"):
 
 async def search(ctx):
     import corr_kernel as _ck
+    import jobloopcorr
 
+    await jobloopcorr.search(ctx, PID)
     await _ck.run_scenarios(ctx, lambda ctx, run_: Observer(ctx, run_), ["resource_race", "hold_recycle", "shrink_resources"])
     import asyncio
     import contextlib
@@ -278,6 +285,10 @@ async def search(ctx):
 
 async def replay(ctx, detail):
     sig = detail.get("signature", "")
+    if detail.get("detail", detail).get("jobloop"):
+        import jobloopcorr
+
+        return await jobloopcorr.replay(ctx, detail)
     case = detail.get("detail", detail).get("case")
     if case:
         import asyncio
